@@ -1,4 +1,5 @@
 CONSTANT Instance = "stark"
+CONSTANT NL = 2
 CONSTANT Disabled = {"Pow"}
 CONSTANT Mutant = "none"
 INIT Init
